@@ -581,6 +581,9 @@ def classify(key, msg, oa, ob, ctx):
     if key.startswith("loc/") and "'coord'" in msg and "'index'" in msg:
         return "locator/free-coordinate-becomes-index-location"
     parts = key.split("/")
+    if parts[0] == "param" and "\"('seq', ())\" vs 'None'" in msg:
+        # documented normalisation of the database encoding (judged in C05): an empty entry next to non-empty ones comes back unset
+        return None
     if parts[0] in ("param", "dimension") and parts[-1] == "modArea" and ("None" in msg and (" 0" in msg or "'0'" in msg)):
         return "unset-dimension-reads-zero/modArea"
     if parts[0] == "param" and len(parts) == 3 and ("('raises', 'ParameterError')" in msg or "('unset',)" in msg):
@@ -623,6 +626,9 @@ def compare(rec, oa, ob, ctx, prefix, w, limit=400, ignore=()):
     seen = set()
     found = [(classify(k, m, oa, ob, ctx), m) for k, m in obs.diff(oa, ob, limit=limit, ignore_params=tuple(ignore) + RECOMPUTED_ON_LOAD)]
     for k, m in found + judge_recomputed(rec, oa, ob, ctx, ignore):
+        if k is None:
+            rec.add("difference inside a documented normalisation (empty sequence next to values reads back unset)", 1)
+            continue
         if k not in seen:
             seen.add(k)
             rec.violation(prefix + k, m, w)
